@@ -101,6 +101,9 @@ def r2(ctx):
         fdv = st.targets[0].elts[0].id
         for w in calls_to(repo, f, "os.write"):
             ctx.check("C17.R2", isinstance(w.args[0], ast.Name) and w.args[0].id == fdv and "self.pid" in norm(w.args[1]), key(f, "writes-pid"), site(f, w), "os.write does not write the pid into the temp file", "os.write(fd, pid)")
+        other = [x for x in stores_to_name(f, fdv) if x.ast is not st]
+        ctx.check("C17.R2", not other, key(f, "fd-from-mkstemp-only"), site(f, other[0] if other else None), "the descriptor create() writes the pid to does not always come from mkstemp (`%s`): the pid-file path "
+                  "itself can be truncated and rewritten in place" % (other[0].text if other else ""), "fd only from tempfile.mkstemp")
     # same directory => same file system => rename is atomic
     d = [k.value for k in mk[0].keywords if k.arg == "dir"]
     okk = False
@@ -115,6 +118,9 @@ def r2(ctx):
             if isinstance(c, ast.Call) and norm(c.func) in ("open", "io.open", "os.open", "os.fdopen") and c.args:
                 target = norm(c.args[0])
                 mode = const(c.args[1], "r") if len(c.args) > 1 else next((const(k.value, "r") for k in c.keywords if k.arg == "mode"), "r")
+                if norm(c.func) == "os.open" and len(c.args) > 1:
+                    flags = set(x.attr for x in ast.walk(c.args[1]) if isinstance(x, ast.Attribute))
+                    mode = "w" if flags & {"O_WRONLY", "O_RDWR", "O_TRUNC", "O_CREAT", "O_APPEND"} else "r"
                 if ("fname" in target or "pidfile" in target) and isinstance(mode, str) and any(x in mode for x in "wax+"):
                     ctx.bad("C17.R2", key(ff, "direct-write|" + norm(c)), site(ff, c), "the pid-file path is opened for writing in place (`%s`): readers can see a truncated/partial file" % norm(c))
     ctx.ok("C17.R2", site(f), "no in-place open(.., 'w') of the pid-file path in Pidfile/Arbiter")
